@@ -23,7 +23,8 @@ func TweakPublicKey(publicKey, h []byte) (qPub []byte, hasOddY bool, err error) 
 		return
 	}
 
-	t := new(big.Int).SetBytes(tapTweakHasher(append(publicKey, h...)))
+	// hash publicKey || h as two chunks: appending h onto publicKey could write into the caller's buffer
+	t := new(big.Int).SetBytes(tapTweakHasher(publicKey, h))
 	if !ekliptic.IsValidScalar(t) {
 		err = fmt.Errorf("invalid tweaked public key; t exceeds curve order")
 		return
